@@ -23,7 +23,7 @@ RECORDERS = ("write_individual_record", "write_interruption_record", "write_rene
 
 def check(ctx):
     P = ctx.program
-    iters = (0, 1, 2) if ctx.tier == "thorough" else (0, 1)
+    iters = (0, 1)
     views = family_views(P, "Node")
     destination_agreement(ctx, P, views, iters)
     destination_writers(ctx, P, views, iters)
